@@ -377,3 +377,47 @@ Proof.
     apply String.eqb_eq in Ex. subst. assumption. }
   destruct H as [H|H]; [left|right]; apply Hm; assumption.
 Qed.
+
+(* ---------------------------------------------------------------------------------------------- *)
+(* equality of the static part (jit cache key) *)
+
+(* when every field takes part in the comparison (and the equality of field values is sound), two
+   records that compare equal have the same value in every field: no two operators that differ in a
+   static field share one cache entry *)
+Lemma rec_eq_sound_l : forall (V : Type) (veq : V -> V -> bool) flags a b,
+  (forall x y, veq x y = true -> x = y) ->
+  forallb (fun f : string * bool => snd f) flags = true ->
+  rec_eq veq flags a b = true ->
+  forall f, In f (map fst flags) -> assoc f a = assoc f b /\ assoc f a <> None.
+Proof.
+  intros V veq flags a b Hv Hall Heq f Hin.
+  apply in_map_iff in Hin. destruct Hin as [[n c] [Hn Hin]]. simpl in Hn. subst n.
+  rewrite forallb_forall in Hall. specialize (Hall _ Hin). simpl in Hall. subst c.
+  unfold rec_eq in Heq. rewrite forallb_forall in Heq. specialize (Heq _ Hin). simpl in Heq.
+  destruct (assoc f a) as [x|]; [|discriminate].
+  destruct (assoc f b) as [y|]; [|discriminate].
+  apply Hv in Heq. subst. split; [reflexivity|discriminate].
+Qed.
+
+(* ... and the condition is necessary: a field declared compare=False is ignored by the comparison,
+   whatever its two values are *)
+Lemma rec_eq_ignores_uncompared_l : forall (V : Type) (veq : V -> V -> bool) f x y,
+  rec_eq veq [(f, false)] [(f, x)] [(f, y)] = true.
+Proof. intros. reflexivity. Qed.
+
+Lemma all_compared_table_l : forall (t : ctable), all_compared t = true ->
+  forall cls flags, In (cls, flags) t -> forallb (fun f : string * bool => snd f) flags = true.
+Proof.
+  intros t H cls flags Hin. unfold all_compared in H. rewrite forallb_forall in H.
+  specialize (H _ Hin). exact H.
+Qed.
+
+Lemma static_key_sound_l : forall (t : ctable), all_compared t = true ->
+  forall cls flags, In (cls, flags) t ->
+  forall (V : Type) (veq : V -> V -> bool) a b, (forall x y, veq x y = true -> x = y) ->
+  rec_eq veq flags a b = true ->
+  forall f, In f (map fst flags) -> assoc f a = assoc f b /\ assoc f a <> None.
+Proof.
+  intros t H cls flags Hin V veq a b Hv Heq f Hf.
+  eapply rec_eq_sound_l; eauto. eapply all_compared_table_l; eauto.
+Qed.
